@@ -302,6 +302,13 @@ impl FetchState {
     {
         match refs_at {
             Some(refs_at) => {
+                // N.b. blocked peers (which includes the local peer, in
+                // the case of a `pull`) are never fetched, so their
+                // announced `rad/sigrefs` must not be applied either.
+                let refs_at = refs_at
+                    .into_iter()
+                    .filter(|r| !handle.is_blocked(&r.remote))
+                    .collect::<Vec<_>>();
                 let sigrefs_at = stage::SigrefsAt {
                     remote,
                     delegates: delegates.clone(),
